@@ -321,6 +321,10 @@ def _stmt(w, s):
         w.w("print ")
         expr(w, s[1])
     elif k == "assert":
+        if len(s) > 2 and s[2]:
+            # an inline comment in front of the keyword: the position of the assert is the keyword's, counted in characters
+            w.w("### " + s[2] + " ### ")
+            w.mark(s)
         w.w("assert ")
         expr(w, s[1])
     elif k == "if":
